@@ -195,10 +195,20 @@ def termsSeq (a : Arpa) (h : List Word) : List Word → List Rat
   | [] => []
   | w :: ws => terms a h w ++ termsSeq a (w :: h) ws
 
+/-- Σ over the words of the largest Σ|terms| over all truncations of the word's history: bounds the magnitude of every
+fragment-internal score that any bracketing can produce (float32 tolerance only, never a value) -/
+def magSeq (a : Arpa) (h : List Word) : List Word → Rat
+  | [] => 0
+  | w :: ws =>
+    let m := (List.range (min h.length (a.order - 1) + 1)).foldl (fun m j =>
+      let v := ((terms a (h.take j) w).map Rat.abs).sum
+      if m < v then v else m) 0
+    m + magSeq a (w :: h) ws
+
 def oracleStr (L : Loaded) (h : List Word) (ws : List Word) : String :=
   let ts := termsSeq L.arpa h ws
   "O: " ++ ratStr (specSeq L.arpa h ws) ++ " " ++ toString ts.length ++ " " ++
-    ratStr ((ts.map Rat.abs).sum + (((termsSeq L.arpa [] ws)).map Rat.abs).sum)
+    ratStr ((ts.map Rat.abs).sum + (((termsSeq L.arpa [] ws)).map Rat.abs).sum + 2 * magSeq L.arpa h ws)
 
 def opDeriv (L : Loaded) (start : String) (toks : List String) : String :=
   let (rule, _) := parseRule L toks
@@ -302,7 +312,7 @@ def opPartial (L : Loaded) (a b : Nat) (steps : String) (wsS : List String) : St
   let specAll := specSeq L.arpa [] ws
   let parts := specSeq L.arpa [] before + specSeq L.arpa [] between + specSeq L.arpa [] after
   let ts := termsSeq L.arpa [] ws ++ termsSeq L.arpa [] before ++ termsSeq L.arpa [] between ++ termsSeq L.arpa [] after
-  "O: " ++ ratStr (specAll - parts) ++ " " ++ toString ts.length ++ " " ++ ratStr ((ts.map Rat.abs).sum) ++ " ## " ++
+  "O: " ++ ratStr (specAll - parts) ++ " " ++ toString ts.length ++ " " ++ ratStr ((ts.map Rat.abs).sum + 2 * magSeq L.arpa [] ws) ++ " ## " ++
     " ## ".intercalate segs
 
 def opSubsume (L : Loaded) (a : Nat) (wsS : List String) : String :=
@@ -318,7 +328,7 @@ def opSubsume (L : Loaded) (a : Nat) (wsS : List String) : String :=
       chartStr L { left := l, right := r } ++ " ; " ++ chartStr L fullC
   let ts := termsSeq L.arpa [] ws ++ termsSeq L.arpa [] first ++ termsSeq L.arpa [] second
   "O: " ++ ratStr (specSeq L.arpa [] ws - specSeq L.arpa [] first - specSeq L.arpa [] second) ++ " " ++ toString ts.length ++ " " ++
-    ratStr ((ts.map Rat.abs).sum) ++ " ## " ++ " ## ".intercalate segs
+    ratStr ((ts.map Rat.abs).sum + 2 * magSeq L.arpa [] ws) ++ " ## " ++ " ## ".intercalate segs
 
 partial def mainLoop (maxOrder : Nat) (h : IO.FS.Stream) (L : Option Loaded) : IO Unit := do
   let line ← h.getLine
